@@ -5,6 +5,9 @@ source shape.
      stype of the same IR (binary), std::str (JSON formats) or the null
      descriptor (no output)
   R2 call nodes carry the resolved overload's return type
+  R3 best-candidate selection loops score each candidate on its own
+  R4 a collection's common type is built from the element-wise results
+  R5 union / intersection simplification absorb in the right direction
 """
 from __future__ import annotations
 
@@ -216,3 +219,213 @@ def run(repo: Repo, ctx) -> None:
             ctx.ob('C12.R2', f'{fname}:ensure_set-typehint', ok,
                    f'the set wrapping the call is typed `{th}`', f.loc,
                    sample=th)
+
+    _r3(repo, ctx)
+    _r4(repo, ctx)
+    _r5(repo, ctx)
+
+
+def _argmin_loops(fn: FuncInfo):
+    """(loop, best, score): loops of the shape
+         for x in xs: ... if best is None: best = s ... elif best > s: best = s
+    """
+    for loop in ast.walk(fn.node):
+        if not isinstance(loop, ast.For):
+            continue
+        for n in ast.walk(loop):
+            if not isinstance(n, ast.If):
+                continue
+            t = n.test
+            if not (isinstance(t, ast.Compare) and len(t.ops) == 1
+                    and isinstance(t.ops[0], (ast.Gt, ast.Lt, ast.GtE,
+                                              ast.LtE))
+                    and isinstance(t.left, ast.Name)
+                    and isinstance(t.comparators[0], ast.Name)):
+                continue
+            a, b = t.left.id, t.comparators[0].id
+            for st in n.body:
+                if isinstance(st, ast.Assign) and len(st.targets) == 1 \
+                        and isinstance(st.targets[0], ast.Name) \
+                        and isinstance(st.value, ast.Name) \
+                        and {st.targets[0].id, st.value.id} == {a, b}:
+                    yield loop, st.targets[0].id, st.value.id
+
+
+def _r3(repo: Repo, ctx) -> None:
+    ctx.floor('C12.R3', 2)
+    mods = ['edb.edgeql.compiler.polyres', 'edb.edgeql.compiler.func',
+            'edb.edgeql.compiler.casts', 'edb.schema.casts',
+            'edb.schema.functions', 'edb.schema.types', 'edb.schema.utils']
+    seen = set()
+    for mn in mods:
+        if mn not in repo.modules:
+            continue
+        for fn in repo._funcs_of(repo.module(mn)):
+            for loop, best, score in _argmin_loops(fn):
+                if (fn.qualname, loop.lineno, score) in seen:
+                    continue
+                seen.add((fn.qualname, loop.lineno, score))
+                ctx.saw(fn)
+                # the score is (plainly) assigned inside the loop body, and
+                # every path from the loop head to a read of it in the body
+                # passes such an assignment
+                g = CFG(fn.node)
+                head = g.nodes_of(loop)
+                defs = [n.id for n in g.nodes if n.kind == 'stmt'
+                        and isinstance(n.ast, (ast.Assign, ast.AnnAssign))
+                        and _in(loop, n.ast)
+                        and any(norm(t) == score for t in (
+                            n.ast.targets if isinstance(n.ast, ast.Assign)
+                            else [n.ast.target]))]
+                uses = [n.id for n in g.nodes if n.kind in ('stmt', 'test')
+                        and _in(loop, n.ast) and n.id not in defs
+                        and any(isinstance(x, ast.Name) and x.id == score
+                                for x in ast.walk(n.ast)
+                                if not isinstance(x, ast.stmt)
+                                or x is n.ast)
+                        and not _only_nested(n.ast, score)]
+                ok = bool(defs) and bool(head)
+                if ok:
+                    h = [x for x in head if g.nodes[x].kind == 'for'] or head
+                    start = [s_ for s_, lab in g.nodes[h[0]].succ
+                             if lab == 'T' and s_ not in defs]
+                    # one iteration only: never through the loop head again
+                    reach = set(start) | g.reachable(
+                        start, avoid=set(defs) | {h[0]})
+                    ok = not (set(uses) & reach)
+                ctx.ob('C12.R3', f'{fn.qualname}:{score}', ok,
+                       f'{fn.qualname} keeps the candidate whose `{score}` '
+                       f'is smallest, but `{score}` is not recomputed from '
+                       f'scratch for every candidate (it carries over from '
+                       f'the previous iteration): the overload / cast chosen '
+                       f'depends on enumeration order, and with it the '
+                       f'reported result type', fn.loc,
+                       sample=f'{best} <- min {score}, reset per iteration')
+    if 'edb.edgeql.compiler.polyres.find_callable' not in {
+            q for q, _l, _s in seen}:
+        raise AnalysisError('C12.R3: the selection loops of find_callable '
+                            'were not recognised')
+
+
+def _in(outer: ast.AST, inner: ast.AST) -> bool:
+    return any(x is inner for x in ast.walk(outer))
+
+
+def _only_nested(node: ast.AST, name: str) -> bool:
+    """compound statement nodes: the use is in a nested statement, which has
+    its own CFG node"""
+    return False
+
+
+def _r4(repo: Repo, ctx) -> None:
+    ctx.floor('C12.R4', 2)
+    tm = repo.module('edb.schema.types')
+    n_inst = 0
+    for fn in repo._funcs_of(tm):
+        if fn.name not in ('find_common_implicitly_castable_type',
+                           '_to_nonpolymorphic', '_resolve_polymorphic'):
+            continue
+        # values produced by the element-wise recursive call
+        derived: Set[str] = set()
+        for n in ast.walk(fn.node):
+            if isinstance(n, ast.For):
+                for a in ast.walk(n):
+                    if isinstance(a, ast.Assign) and isinstance(
+                            a.value, ast.Call) and isinstance(
+                            a.value.func, ast.Attribute) and \
+                            a.value.func.attr.lstrip('_') in (
+                                fn.name.lstrip('_'), 'to_nonpolymorphic',
+                                'resolve_polymorphic'):
+                        for t in a.targets:
+                            for e in (t.elts if isinstance(t, ast.Tuple)
+                                      else [t]):
+                                if isinstance(e, ast.Name) and e.id != \
+                                        'schema':
+                                    derived.add(e.id)
+        if not derived:
+            continue
+        changed = True
+        while changed:
+            changed = False
+            for n in ast.walk(fn.node):
+                if isinstance(n, ast.Call) and isinstance(
+                        n.func, ast.Attribute) and n.func.attr in (
+                        'append', 'extend', 'add') and isinstance(
+                        n.func.value, ast.Name) and any(
+                        isinstance(x, ast.Name) and x.id in derived
+                        for a in n.args for x in ast.walk(a)):
+                    if n.func.value.id not in derived:
+                        derived.add(n.func.value.id)
+                        changed = True
+        ctors = [c for c in ast.walk(fn.node) if isinstance(c, ast.Call)
+                 and isinstance(c.func, ast.Attribute)
+                 and c.func.attr == 'from_subtypes' and len(c.args) >= 2]
+        for c in ctors:
+            n_inst += 1
+            used = {x.id for x in ast.walk(c.args[1])
+                    if isinstance(x, ast.Name)}
+            ok = bool(used & derived)
+            ctx.saw(fn)
+            ctx.ob('C12.R4', f'{fn.qualname}:{norm(c)[:40]}', ok,
+                   f'{fn.qualname} computes element-wise results into '
+                   f'{sorted(derived)} but builds the returned collection '
+                   f'from {norm(c.args[1])[:50]}: the reported element types '
+                   f'are those of one operand, not the common / resolved '
+                   f'ones', fn.loc, sample=norm(c.args[1])[:60])
+    if n_inst < 2:
+        raise AnalysisError('C12.R4: element-wise collection constructors '
+                            'not found')
+
+
+def _r5(repo: Repo, ctx) -> None:
+    ctx.floor('C12.R5', 4)
+    um = repo.module('edb.schema.utils')
+    want = {'simplify_union': ('minimize_class_set_by_most_generic',
+                               'minimize_class_set_by_least_generic',
+                               'a union is described by its most generic '
+                               'members: Person | User (User extending '
+                               'Person) contains plain Person objects'),
+            'simplify_intersection': (
+                'minimize_class_set_by_least_generic',
+                'minimize_class_set_by_most_generic',
+                'an intersection is described by its least generic members')}
+    n = 0
+    for fn in repo._funcs_of(um):
+        for prefix, (need, forbid, why) in want.items():
+            if not fn.name.startswith(prefix):
+                continue
+            n += 1
+            calls = {call_name(c) for c in ast.walk(fn.node)
+                     if isinstance(c, ast.Call) and call_name(c)}
+            ok = need in calls and forbid not in calls
+            ctx.saw(fn)
+            ctx.ob('C12.R5', f'{fn.name}:direction', ok,
+                   f'{fn.name} minimises with '
+                   f'{sorted(c for c in calls if "minimize" in c)}; {why}',
+                   fn.loc, sample=need)
+    if n < 3:
+        raise AnalysisError('C12.R5: simplify_* functions not found')
+    # the two minimisers filter in opposite directions
+    for name, own_mro in (('minimize_class_set_by_most_generic', 'mros[i]'),
+                          ('minimize_class_set_by_least_generic', 'mros[j]')):
+        fn = repo.func(f'edb.schema.utils.{name}')
+        pairs = [norm(t) for t in ast.walk(fn.node) if isinstance(
+            t, ast.Tuple) and len(t.elts) == 2 and norm(t.elts[0]).startswith(
+                'mros[')]
+        other = 'classes[j]' if own_mro == 'mros[i]' else 'classes[i]'
+        ok = pairs == [f'({own_mro}, {other})']
+        incl_self = '| {p}' in norm(fn.node)
+        if name.endswith('least_generic'):
+            ok = ok and incl_self
+        ctx.ob('C12.R5', f'{name}:filter', ok,
+               f'{name} tests {pairs}: expected ({own_mro}, {other})',
+               fn.loc, sample=pairs)
+    # the compiler's union of operand types goes through the simplifier
+    gu = repo.func('edb.edgeql.compiler.schemactx.get_union_type')
+    calls = {call_name(c) for c in ast.walk(gu.node)
+             if isinstance(c, ast.Call) and call_name(c)}
+    ok = any('ensure_union_type' in c or 'get_or_create_union_type' in c
+             for c in calls)
+    ctx.ob('C12.R5', 'schemactx.get_union_type:via-schema-utils', ok,
+           f'get_union_type builds the union through {sorted(calls)[:6]}',
+           gu.loc, sample='s_utils.ensure_union_type')
